@@ -92,6 +92,11 @@ fn into_iri<'a>(s: &'a str, mut prefix: &str) -> Cow<'a, str> {
     }
 }
 
+/// Serialises a string as a JSON string literal (surrounding quotes included), escaping everything JSON requires
+fn json_str(s: &str) -> String {
+    serde_json::to_string(s).expect("serialising a string to JSON can not fail")
+}
+
 fn value_to_json(value: &DataValue) -> String {
     match value {
         DataValue::String(s) => format!("\"{}\"", s.replace("\n", "\\n").replace("\"", "\\\"")),
@@ -166,19 +171,21 @@ impl WebAnnoConfig {
     /// Generates a JSON-LD string to use for @context
     pub fn serialize_context(&self) -> String {
         let mut out = String::new();
+        //extra contexts are URLs, they are JSON strings in the output
+        let extra_context: Vec<String> = self.extra_context.iter().map(|x| json_str(x)).collect();
         if !self.extra_context.is_empty() {
             if !self.context_namespaces.is_empty() {
                 out += &format!(
                     "[ \"{}\", {}, {{ {} }} ]",
                     CONTEXT_ANNO,
-                    self.extra_context.join(", "),
+                    extra_context.join(", "),
                     self.serialize_context_namespaces(),
                 );
             } else {
                 out += &format!(
                     "[ \"{}\", {} ]",
                     CONTEXT_ANNO,
-                    self.extra_context.join(", ")
+                    extra_context.join(", ")
                 );
             }
         } else if !self.context_namespaces.is_empty() {
